@@ -399,6 +399,10 @@ class BehavioralRTLIRToVVisitorL1( bir.BehavioralRTLIRNodeVisitor ):
           f"unrecognized operator {op_t} for reduce method!" )
     value = s.visit( node.value )
     op = reduce_ops[ op_t ]
+    # A unary reduction operator binds tighter than any binary operator, so
+    # an operand that is itself an operation needs its own parentheses
+    if isinstance( node.value, ( bir.BinOp, bir.Compare, bir.IfExp, bir.UnaryOp ) ):
+      value = f"( {value} )"
     return f"( {op} {value} )"
 
   #-----------------------------------------------------------------------
